@@ -206,6 +206,8 @@ IncrEv ==
      IN /\ Check("C19", "incremental-equals-at-once", d = {}, IF cyc THEN "F20" ELSE "CTX", cyc \/ ctxk, d, "-")
         \* the root list is part of the graph: every specifier ever passed as a root is a root, whichever build brought it
         /\ Check("C19", "incremental-roots-equal-at-once", SeqToSet(a.roots) = SeqToSet(b.roots), "-", FALSE, a.roots, b.roots)
+        \* ... and so are the configured type imports, whichever build brought the configuration
+        /\ Check("C19", "incremental-imports-equal-at-once", a.imports = b.imports, "-", FALSE, a.imports, b.imports)
   /\ l' = l + 1 /\ UNCHANGED g
 RebuildEv ==
   /\ Rec[l].ev = "rebuild"
